@@ -42,12 +42,13 @@ def run(c):
     # helper developments (moved out of / added next to Props/C20.lean) are audited like the property file itself
     c.prove("SH.Lemmas.Journal", extra_files=["SH/Model/Journal.lean", "SH/Gen/C20.lean"])
     c.prove("SH.Lemmas.JournalConv")
+    c.prove("SH.Lemmas.JournalChain")
     c.prove("SH.Props.C20", extra_files=["SH/Model/Journal.lean", "SH/Model/MetaIndex.lean", "SH/Gen/C20.lean"])
     drv = c.driver(DRIVER)
     if binary and drv:
         # the minimal histories first (4 of the name-reuse defect, 1 with draft tags through two compact siblings),
         # then the generated ones
-        rc, out = c.go_run(binary, ["-n=5", "-mode=witness"])
+        rc, out = c.go_run(binary, ["-n=6", "-mode=witness"])
         c.harness_ok(rc, out, "verif-c20 -mode=witness")
         c.correspond(out, drv, label="witness")
         rc, out = c.go_run(binary, [f"-n={c.n(300, 4000)}"], timeout=1500)
@@ -85,7 +86,14 @@ META = {
              "that name, and every name-index entry is the id-index entry of that name (false for the pinned code: `decide` witness); "
              "(4) `groups_ordered_every_batch` + `group_assignment` + `calcGroup_longest_prefix`: after every ApplyEvent batch "
              "groupsOrdered is name-descending and exactly the enabled user groups, and each metric's group is the one with the longest "
-             "name that is a prefix of the metric name; (5) `delivery_never_skips`, `truncate_keeps_prefix`, `load_inv`. The model is "
+             "name that is a prefix of the metric name; (5) `delivery_never_skips`, `truncate_keeps_prefix`, `load_inv`; (6) `two_hop_converges_no_skip` / "
+             "`two_hop_agents_same_hash`: source -> aggregator -> agent with the invariant stated relative to the SOURCE (a journal "
+             "at depth d holds only source events transported d times with their source versions, complete up to its loaderVersion), "
+             "every schedule including restarts of the aggregator AND of the agent from old and/or truncated files (agent "
+             "transiently ahead of the rolled-back aggregator): whenever the agent's loaderVersion reaches the source version it "
+             "holds exactly the source's current entities, doubly transported, same versions, and agents have equal hashes — proved "
+             "for chains without the compaction skip (non-compact journals); (7) `two_hop_compact_rollback_counterexample`: for a "
+             "COMPACT aggregator the statement is false of the code (decide witness, replayed on the real chain). The model is "
              "tied to the code by replaying each generated history op by op on real JournalFast/MetricsStorage objects and on the "
              "compiled Lean model and diffing versions, hashes, journal order and all index maps; the hypotheses of (1) about the "
              "observed transport/compaction functions (they keep type and id, discard per entity, positive sizes) are checked on the "
@@ -94,13 +102,20 @@ META = {
              "stored-content-unpredicted; metrics with 2-8 tags_draft entries and two compact aggregators of one source are generated "
              "for that purpose)."),
     "note": ("Trusted: Lean kernel; correspondence on generated histories (quick 300, thorough 4000 cases of 20-70 ops); contents, hashes, "
-             "compaction and transport results are inputs observed on the real code. Partial: `converges` is per hop and needs an "
-             "upstream that is never rolled back — complete for source -> aggregator; for aggregator -> agent it holds while the "
-             "aggregator's journal only grows. An agent behind an aggregator that restarts from an old or truncated file (agent "
-             "transiently ahead of its upstream) is not covered by a theorem; the direct oracle checks it on the real code at every "
-             "synced point (replica-missing/stale/extra-entity, hash-diverged*). A compact replica may keep an older version number "
-             "for an entity whose compact form did not change (content equality, not version equality, is proved for compact "
-             "journals). Defect of the pinned tree (fixed in /repo as ebafde2e, fixes/C20-name-index.diff): ApplyEvent deleted the old "
-             "name unconditionally on rename and rebuilt the metric name index from the id index in map order."),
+             "compaction and transport results are inputs observed on the real code. KNOWN FINDING (unchanged tree, "
+             "known_findings.txt sig=agent-ahead-of-rolled-back-compact-upstream and its two hash variants): a compact journal "
+             "(aggregator) that restarts from an older file skips, as unchanged, an entity whose compact form returned (A -> B -> A "
+             "at the source) to what the file holds; it keeps the file's version number, which is below the loaderVersion of agents "
+             "that received B before the restart, so those agents are never sent A and stay different from the aggregator and from "
+             "later agents although everybody is synced. No small safe fix: the loader's lastKnownVersion is the version of the last "
+             "returned event (not the source's current version) and the long poll never returns empty, so the journal cannot tell "
+             "when its catch-up after a restart is over and the skip is safe again; a repair needs a protocol change (agent "
+             "detects an upstream behind itself and resyncs, or the skip records the version range it covers). Partial: two-hop "
+             "convergence with aggregator rollbacks is proved only for skip-free chains; for a compact aggregator that is never "
+             "rolled back two hops follow from `converges` applied to each hop; a compact aggregator with rollbacks under a "
+             "'compact form never returns to an earlier value' hypothesis is not proved. A compact replica may keep an older "
+             "version number for an entity whose compact form did not change (content equality, not version equality, is proved "
+             "for compact journals). Earlier defect (fixed in /repo as ebafde2e, fixes/C20-name-index.diff): ApplyEvent deleted the "
+             "old name unconditionally on rename and rebuilt the metric name index from the id index in map order."),
     "design_ref": "DESIGN.md §6 C20",
 }
